@@ -11,6 +11,12 @@ def main():
     from harness import pelrun, project, seams
     seams.install_fixture_plugins()
     seams.install_registry()
+    if job.get('tables'):
+        import os
+        os.environ.setdefault('VERIF_SCRATCH', job['scratch'])
+        seams.install_comp_tables(os.path.join(job['scratch'], 'comptables-%d' % os.getpid()))
+    else:
+        seams.no_comp_tables()
     res = pelrun.decode(bytes.fromhex(job['hex']), job['plugins'])
     print(json.dumps(dict(digest=pelrun.full_digest(res), outcome=res['outcome'])))
 
